@@ -19,7 +19,7 @@ use trippy_packet::{icmpv4, icmpv6};
 type Findings = BTreeMap<String, Finding>;
 
 fn add(findings: &mut Findings, key: String, detail: String, replay: serde_json::Value, weight: usize) {
-    let e = findings.entry(key.clone()).or_insert(Finding { key, detail: detail.clone(), replay: replay.clone(), weight: (0, usize::MAX), count: 0 });
+    let e = findings.entry(key.clone()).or_insert_with(|| Finding { key, detail: detail.clone(), replay: replay.clone(), weight: (0, usize::MAX), count: 0 });
     e.count += 1;
     if (0, weight) < e.weight {
         e.detail = detail;
